@@ -86,7 +86,9 @@ class CTranslator:
         pnames = [p["name"] for p in params]
         stmts = self.block(body)
         if self.parse_tuple is not None:
-            pnames = self.parse_tuple   # the Python-visible arguments, in format-string order
+            uses_self = params and params[0]["name"] == "self" and any(
+                isinstance(x, ast.Name) and x.id == "self" for st_ in stmts for x in ast.walk(st_))
+            pnames = (["self"] if uses_self else []) + self.parse_tuple   # the Python-visible arguments, in format-string order
             stmts = [x for x in stmts if not (isinstance(x, ast.Assign) and isinstance(x.targets[0], ast.Name)
                                               and x.targets[0].id in pnames and isinstance(x.value, ast.Constant))]
         args = ast.arguments(posonlyargs=[], args=[ast.arg(arg=p) for p in pnames], kwonlyargs=[], kw_defaults=[], defaults=[])
